@@ -238,7 +238,7 @@ def table_of(mapper):
 # ------------------------------------------------------------------------------------------------------------
 # alpha
 # ------------------------------------------------------------------------------------------------------------
-def alpha_exact(H, unit):
+def alpha_exact(H, unit, tol=1e-12):
     """H = unit*Q + rho*R with integer matrices; (Q, R, on_lattice)"""
     H = np.asarray(H, dtype=float)
     if H.ndim != 2 or not np.all(np.isfinite(H)):
@@ -246,7 +246,7 @@ def alpha_exact(H, unit):
     q = np.rint(H / unit)
     resid = H - q * unit
     r = np.rint(resid / RHO)
-    ok = H.size == 0 or (np.max(np.abs(resid - r * RHO)) <= 1e-12 and np.max(np.abs(q)) < 2 ** 30 and np.max(np.abs(r)) < 1000)
+    ok = H.size == 0 or (np.max(np.abs(resid - r * RHO)) <= tol and np.max(np.abs(q)) < 2 ** 30 and np.max(np.abs(r)) < 1000)
     return q.astype(np.int64).tolist(), r.astype(np.int64).tolist(), bool(ok)
 
 
@@ -301,7 +301,8 @@ def perm_abs(A):
 
 
 def base_record(api, scheme, mesh, n):
-    return {"p": "C07", "api": api, "scheme": scheme, "mesh": mesh, "n": int(n), "raised": False, "history": "fresh"}
+    return {"p": "C07", "api": api, "scheme": scheme, "mesh": mesh, "n": int(n), "raised": False, "history": "fresh",
+            "ctype": "float", "attrs_ok": True}
 
 
 HISTORIES = ("fresh", "copy", "reassign")
@@ -361,15 +362,19 @@ def ridge_by_homogeneity(H, H2, f, m):
 # ------------------------------------------------------------------------------------------------------------
 # records: exact domain on real mappers
 # ------------------------------------------------------------------------------------------------------------
-def exact_record(scheme, mesh, lin, reg, c2q=0, czq=0, unit=QUARTER, need_w=False, desc=None, history="fresh", prior_none=False):
+def exact_record(scheme, mesh, lin, reg, c2q=0, czq=0, unit=QUARTER, need_w=False, desc=None, history="fresh", prior_none=False,
+                 observed=None, tol=1e-12):
     n = int(lin.params)
     try:
-        H, lin = observe_block(lin, reg, history, prior_none)
-        w = np.asarray(reg.regularization_weights_from(linear_obj=lin), dtype=float)
+        if observed is not None:
+            H, w = observed
+        else:
+            H, lin = observe_block(lin, reg, history, prior_none)
+            w = np.asarray(reg.regularization_weights_from(linear_obj=lin), dtype=float)
         N = table_of(lin)
     except Exception as e:  # an exception is an observation (the schemes must return a matrix)
         return failed("exact", scheme, mesh, n, e, history)
-    Hq, Hr, ok = alpha_exact(H, unit)
+    Hq, Hr, ok = alpha_exact(H, unit, tol)
     W, okw = ints_exact(w) if need_w else ([], True)
     r = base_record("exact", scheme, mesh, n)
     r.update({"N": N, "c2q": int(c2q), "czq": int(czq), "W": W, "wlen": int(w.shape[0]) if w.ndim == 1 else -1,
@@ -818,6 +823,73 @@ def blocks_record(kinds, seed, scheme_mix=False, history="fresh", stage="fresh")
     return rec
 
 
+# coefficient TYPES: (name, constructor of the coefficient object, value, schemes).  The value is integer-valued and chosen so that its
+# square overflows the narrow integer types; the expected matrix is value^2 times the integer form (unit = value^2, coefficient^2 = 1 unit).
+# With 50000 the 1e-8 ridge is below the floating-point resolution of the entries, so only Zeroth (no ridge) is used there; with 200 the
+# Constant scheme would be numerically singular for the same reason and is left out.
+ALL3 = ("constant", "constant_zeroth", "zeroth")
+
+
+def coefficient_types():
+    return [
+        ("int", lambda v: int(v), 3, ALL3), ("float", lambda v: float(v), 3, ALL3), ("np.float64", lambda v: np.float64(v), 3, ALL3),
+        ("np.float32", lambda v: np.float32(v), 3, ALL3), ("np.int64", lambda v: np.int64(v), 3, ALL3), ("np.int64", lambda v: np.int64(v), 50000, ("zeroth",)),
+        ("np.int32", lambda v: np.int32(v), 3, ALL3), ("np.int32", lambda v: np.int32(v), 50000, ("zeroth",)),
+        ("np.int16", lambda v: np.int16(v), 200, ("constant_zeroth", "zeroth")), ("np.int16", lambda v: np.int16(v), 3, ALL3),
+        ("np.uint8", lambda v: np.uint8(v), 20, ALL3),
+        ("array0d", lambda v: np.array(float(v)), 3, ALL3), ("array0d-shared", lambda v: np.array(float(v)), 3, ("constant_zeroth",)),
+    ]
+
+
+def _snapshot(reg):
+    out = {}
+    for k, v in sorted(vars(reg).items()):
+        out[k] = (type(v).__name__, str(getattr(v, "dtype", "")), repr(np.asarray(v).tolist()))
+    return out
+
+
+def ctype_records(seed, verts_family):
+    """every scheme object is asked for its matrix TWICE (and its weights in between); both reads are judged, and the scheme's
+    coefficient attributes must be unchanged by the calls"""
+    import autoarray as aa
+
+    rng = np.random.default_rng(seed)
+    fam = dict((a, b) for a, b in verts_family)
+    meshes = [("rect", rect_mapper(3, 3, rect_centres(3, 3) + rng.uniform(-0.4, 0.4, size=(9, 2)), None))]
+    for name in ("rnd5", "hex7"):
+        if name in fam:
+            meshes.append(("delaunay", delaunay_mapper(fam[name], points_in_hull(rng, fam[name], 10), None)))
+    out = []
+    for tname, make, value, schemes in coefficient_types():
+        for scheme in schemes:
+            for mesh, lin in meshes:
+                n = int(lin.params)
+                desc = {"coefficient": value, "coefficient_type": tname}
+                try:
+                    c = make(value)
+                    cz = c if tname == "array0d-shared" else make(value)
+                    reg = (aa.reg.Constant(coefficient=c) if scheme == "constant" else aa.reg.Zeroth(coefficient=c) if scheme == "zeroth"
+                           else aa.reg.ConstantZeroth(coefficient_neighbor=c, coefficient_zeroth=cz))
+                    before = _snapshot(reg)
+                    H1 = reg.regularization_matrix_from(linear_obj=lin)
+                    w = np.asarray(reg.regularization_weights_from(linear_obj=lin), dtype=float)
+                    H2 = reg.regularization_matrix_from(linear_obj=lin)
+                    attrs_ok = _snapshot(reg) == before
+                except Exception as e:
+                    r = failed("exact", scheme, mesh, n, e)
+                    r["ctype"], r["desc"] = tname, desc
+                    out.append(r)
+                    continue
+                unit = float(value) ** 2
+                for k, H in enumerate((H1, H2)):
+                    hmax = float(np.max(np.abs(H))) if np.all(np.isfinite(H)) and np.size(H) else 0.0
+                    r = exact_record(scheme, mesh, lin, reg, 1, 1 if scheme == "constant_zeroth" else 0, unit=unit, desc=dict(desc, read=k + 1),
+                                     observed=(H, w), tol=max(1e-12, min(1e-9, 8 * 2.3e-16 * hmax)))
+                    r["ctype"], r["attrs_ok"] = tname, bool(attrs_ok)
+                    out.append(r)
+    return out
+
+
 def chain_records(seed):
     """function-list objects report a chain neighbour graph: constant schemes on 1..4 parameters (all small enough for exact minors)"""
     from harness.drivers import inv_common as ic
@@ -858,6 +930,8 @@ def records_for_job(job):
         recs = records_for_inst(job["inst"], job.get("verts"), job["seed"])
     elif j == "chain":
         recs = chain_records(job["seed"])
+    elif j == "ctype":
+        recs = ctype_records(job["seed"], fam)
     elif j == "exact_rand":
         recs = [exact_random_record(job["seed"], fam)]
     elif j == "fixed":
@@ -954,7 +1028,7 @@ def run(ctx):
                   "coefficients_4c2": c2q, "constant_zeroth_4c2_4cz2": f"every pair of {zset}", "adaptive_exact": f"every (inner, outer) pair of {wset} x {len(patterns)} bright-pixel patterns, signal_scale in {{0, 1/2, 1, 2, 3}}",
                   "inversion_histories": f"{list(STAGES)} for every object list of length 1..{stage_max_objs} over the kinds {stage_kinds}; random lists (length 1..4) take a random one",
                   "synthetic_split_instances": len(splits), "object_lists": f"all lists of length 1..{max_objs} over {len(kinds)} kinds (mapper 3x3, mapper 3x4, 1- and 2-function lists; with / without regularization)",
-                  "ternary_vectors_up_to_n": 6, "exact_minors_up_to_n": 4,
+                  "coefficient_types": sorted(set(t[0] for t in coefficient_types())), "ternary_vectors_up_to_n": 6, "exact_minors_up_to_n": 4,
                   "wide_kernel_meshes_rows_cols_ratio_gaussian": "filled below"}
     # ---- S->C jobs
     jobs = []
@@ -970,6 +1044,7 @@ def run(ctx):
     rng = np.random.default_rng(seed)
     nr = (lambda q, t: q if quick else t)
     jobs.append({"j": "chain", "seed": seed})
+    jobs.append({"j": "ctype", "seed": seed, "family": family})
     for _ in range(nr(100, 2000)):
         jobs.append({"j": "exact_rand", "seed": int(rng.integers(1, 2 ** 31)), "family": family})
     for _ in range(nr(200, 4000)):
@@ -1035,6 +1110,9 @@ def run(ctx):
         "inversion.log_det_regularization_matrix_term), validated like `raised`, not recomputed by TLC",
         "ridge of fixed-point schemes observed through H(2*coefficients) - f*H(coefficients) = -(f-1)*1e-8*I, float error of both runs bounded below 0.005 ridge units",
         "alpha splits H = u*Q + 1e-8*R with residual <= 1e-12 and rejects anything else (offlattice clause)",
+        "coefficient types: the same integer-valued coefficient as int, float, np.float64/32, np.int64/32/16, np.uint8 and a 0-d array (3; 20 for uint8, 200 for int16, "
+        "50000 for int32/int64 with Zeroth only, where the 1e-8 ridge is below the float resolution of the entries); unit = coefficient^2, ridge residual tolerance "
+        "8 ulp of the largest entry (< 0.1 ridge units); each scheme object is read twice with its weights in between",
         "inversion-level histories: the solve step evaluates curvature_reg_matrix, then reconstruction / log_det_curvature_reg_matrix_term / regularization_term "
         "with solver failures ignored (C05 decides the solver); the log-determinant term is compared with 2*sum(log(diag(cholesky(reduced matrix as read)))) "
         "in fixed point 1e-3 with tolerance 1e-2 (both are floating-point observations; the comparison is TLC's)",
